@@ -45,6 +45,8 @@ class C12(F.Check):
             F.Kernel("c12_dec_d", u, [(u, "n")], "return %sdecompose(n).odd_remainder;" % D, mode="wrap", family="decompose"),
             F.Kernel("c12_mul_mod", u, [(u, "a"), (u, "b"), (u, "n")], "return %smul_mod(a, b, n);" % D, mode="wrap", family="mul_mod"),
             F.Kernel("c12_bool_sign", "int32_t", [("bool", "x")], "return %sbool_sign(x);" % D, mode="wrap", family="bool_sign"),
+            F.Kernel("c12_is_square", "bool", [(u, "n")], "return %sis_perfect_square(n);" % D, mode="ub", family="is_perfect_square"),
+            F.Kernel("c12_gcd", u, [(u, "a"), (u, "b")], "return %sgcd(a, b);" % D, mode="ub", family="gcd"),
         ]
         ks += self.closed_kernels()
         return ks
@@ -341,6 +343,43 @@ class C12(F.Check):
                        note="IR re-interpreted at %d bits; recursive call replaced by its contract; no hints" % w)
             obw.reinterpreted = True
             obs.append(obw)
+        # ---------------- is_perfect_square and gcd, bit-precise at reduced width (re-interpreted IR; loops unwound with assertion)
+        WS = 12 if self.tier == "quick" else 16
+
+        def fn_sq(K, n, WS=WS):
+            if isinstance(K["c12_is_square"], F.NativeHandle):
+                e = K["c12_is_square"](T.zext(n, 64))
+                nv = n.attr
+                import math
+                return T.TRUE, T.and_(T.not_(e.ub), T.eq(e.ret, T.const_bool(math.isqrt(nv) ** 2 == nv)))
+            e = K["c12_is_square"](n, unwind=WS + 2, width_map={64: WS})
+            spec = T.or_(*[T.eq(n, T.const_bv(r * r, WS)) for r in range(1 << (WS // 2))])
+            return T.TRUE, T.and_(T.not_(e.ub), T.not_(e.unwind), T.eq(e.ret, spec))
+        ob = F.Ob("is_perfect_square:at_%d_bits" % WS, [("n", T.BV(WS))], fn_sq, kernels=["c12_is_square"], routes=["z3-bv", "cvc5-bv"],
+                  timeout=120, note="IR re-interpreted at %d bits: result <=> n is one of the squares r*r; Newton loop unwound %d times with unwinding assertion" % (WS, WS + 2))
+        ob.reinterpreted = True
+        obs.append(ob)
+        WG = 8
+
+        def fn_gcd(K, a, b, WG=WG):
+            if isinstance(K["c12_gcd"], F.NativeHandle):
+                import math
+                e = K["c12_gcd"](T.zext(a, 64), T.zext(b, 64))
+                return T.TRUE, T.and_(T.not_(e.ub), T.eq(e.ret, T.const_bv(math.gcd(a.attr, b.attr), 64)))
+            e = K["c12_gcd"](a, b, unwind=14, width_map={64: WG})
+            g = e.ret
+            z = T.const_bv(0, WG)
+            nz = T.ne(g, z)
+            div_a = T.eq(T.bvop("bvurem", a, g), z)
+            div_b = T.eq(T.bvop("bvurem", b, g), z)
+            greatest = T.and_(*[T.or_(T.ne(T.bvop("bvurem", a, T.const_bv(d, WG)), z), T.ne(T.bvop("bvurem", b, T.const_bv(d, WG)), z),
+                                      T.eq(T.bvop("bvurem", g, T.const_bv(d, WG)), z)) for d in range(2, 1 << WG)])
+            pre = T.or_(T.ne(a, z), T.ne(b, z))
+            return pre, T.and_(T.not_(e.ub), T.not_(e.unwind), nz, div_a, div_b, greatest)
+        ob = F.Ob("gcd:at_%d_bits" % WG, [("a", T.BV(WG)), ("b", T.BV(WG))], fn_gcd, kernels=["c12_gcd"], routes=["z3-bv", "cvc5-bv"],
+                  timeout=120, note="IR re-interpreted at %d bits: result divides both and every common divisor divides it; Euclid loop unwound 14 (Fibonacci bound 12) with assertion" % WG)
+        ob.reinterpreted = True
+        obs.append(ob)
         # ---------------- closed
         for k in self.closed:
             if K[k.name].kernel.dropped:
